@@ -67,7 +67,8 @@ func plCandidates(d *Decoded, maxImages int) (ks []int, drops [][]int) {
 	n := len(d.Evs)
 	var points []int
 	for i, e := range d.Evs {
-		if e.K == "ack" || e.K == "pw" || e.K == "vindex" || e.K == "vdata" || e.K == "sync" || e.K == "walfsync" {
+		if e.K == "ack" || e.K == "pw" || e.K == "vindex" || e.K == "vdata" || e.K == "sync" || e.K == "walfsync" ||
+			(e.K == "walapp" && e.Rec.T == "txn" && e.Rec.Dest == 1) { // also between the checkpoint's PREPARING record and its sync
 			points = append(points, i+1)
 		}
 	}
